@@ -228,6 +228,39 @@ func withMsRuns(c *Ctx, g *storeGen, ops []M) []M {
 	for _, j := range jobsL {
 		out = append(out, run(j, false), run(j, false), run(j, false))
 	}
+	if c.Rng.Intn(2) == 0 {
+		// a link that is rewired or removed between runs: the main entity that LOST its link must be emitted as
+		// well (first hop outgoing: the graph as it stood at the previous run). Link entities in b point to main
+		// entities in a through ns3:r1.
+		j3 := jobT{"j3", M{"main": "a", "deps": []M{{"dataset": "b", "joins": []M{{"dataset": "a", "predicate": "ns3:r1", "inverse": false}}}},
+			"batch": []int{1, 2, 10}[c.Rng.Intn(3)], "latestOnly": c.Rng.Intn(2) == 0}}
+		ent := func(id string, v int, refs M) M { return M{"id": id, "deleted": false, "props": M{"ns3:p0": v}, "refs": refs} }
+		mains := []M{}
+		for i := 1; i <= 4; i++ {
+			mains = append(mains, ent(fmt.Sprintf("ns3:e%d", i), 900+i, M{}))
+		}
+		links := []string{"ns3:x1", "ns3:x2", "ns3:x3"}
+		out = append(out, M{"op": "store", "ds": "a", "ents": mains})
+		for i, l := range links {
+			out = append(out, M{"op": "store", "ds": "b", "ents": []M{ent(l, 800+i, M{"ns3:r1": fmt.Sprintf("ns3:e%d", 1+c.Rng.Intn(4))})}})
+		}
+		out = append(out, run(j3, false), run(j3, false), run(j3, false))
+		for round := 0; round < 1+c.Rng.Intn(3); round++ {
+			l := links[c.Rng.Intn(len(links))]
+			switch c.Rng.Intn(4) {
+			case 0: // link removed
+				out = append(out, M{"op": "store", "ds": "b", "ents": []M{ent(l, 700+round, M{})}})
+			case 1: // link entity deleted
+				out = append(out, M{"op": "store", "ds": "b", "ents": []M{{"id": l, "deleted": true, "props": M{}, "refs": M{}}}})
+			default: // rewired
+				out = append(out, M{"op": "store", "ds": "b", "ents": []M{ent(l, 700+round, M{"ns3:r1": fmt.Sprintf("ns3:e%d", 1+c.Rng.Intn(4))})}})
+			}
+			if c.Rng.Intn(3) == 0 { // an unrelated later change of another link
+				out = append(out, M{"op": "store", "ds": "b", "ents": []M{ent(links[c.Rng.Intn(len(links))], 600+round, M{"ns3:r1": fmt.Sprintf("ns3:e%d", 1+c.Rng.Intn(4))})}})
+			}
+			out = append(out, run(j3, false), run(j3, false))
+		}
+	}
 	return out
 }
 
